@@ -281,6 +281,14 @@ func c08Keys(ks []c08Key) state.Keys {
 	return out
 }
 
+// c08SafeRun calls e.Run and turns a panic inside it into a value (Run is called by the
+// block processor's own goroutine: a panic there takes the node down).
+func c08SafeRun(e *Executor, keys state.Keys, f func() error) (p any) {
+	defer func() { p = recover() }()
+	e.Run(keys, f)
+	return nil
+}
+
 func c08ErrStr(err error) string {
 	var te c08Err
 	switch {
@@ -296,13 +304,29 @@ func c08ErrStr(err error) string {
 
 func (c *c08Case) doWait() (string, bool) {
 	done := make(chan error, 1)
-	go func() { done <- c.e.Wait() }()
+	pan := make(chan any, 1)
+	go func() {
+		defer func() {
+			if p := recover(); p != nil {
+				pan <- p
+			}
+		}()
+		done <- c.e.Wait()
+	}()
+	suffix := ""
+	if c.m.err != "" {
+		suffix = "-after-error"
+	}
 	select {
 	case err := <-done:
 		c.waitRes = err
 		return c08ErrStr(err), true
+	case p := <-pan:
+		c.r.Violation("wait-panics"+suffix, "Wait panicked: %v", p)
+		c.hung = true
+		return "panic", false
 	case <-time.After(c08Timeout):
-		c.r.Violation("wait-hang", "Wait did not return within %v although every task was released", c08Timeout)
+		c.r.Violation("wait-hang"+suffix, "Wait did not return within %v although every task was released (recorded error: %q)", c08Timeout, c.m.err)
 		c.hung = true
 		return "hang", false
 	}
@@ -478,6 +502,12 @@ func c08Generate(r *verifh.Run) []string {
 		// failure and stop
 		"case 1", "run 0:5", "run 0:5", "run 1:1", "rel 0 1", "rel 0 0", "wait",
 		"case 3", "run 0:5", "run 0:1", "run 1:5", "stop", "run 1:1", "rel 0 0", "rel 0 0", "rel 0 0", "wait",
+		// tasks queued AFTER a failure / stop are registered and skipped: reader then writer of a
+		// key whose owner is executed / skipped, writer then reader, two keys
+		"case 2", "run 0:5", "run 0:5", "rel 0 1", "run 0:1", "run 0:5", "run 0:1", "run 0:5", "wait",
+		"case 1", "run 0:5", "stop", "rel 0 0", "run 0:1", "run 0:1", "run 0:5", "run 0:7", "wait",
+		"case 4", "run 0:5 1:1", "run 1:5", "rel 0 1", "rel 0 0", "run 0:1 1:1", "run 1:5", "run 0:3", "run 0:1", "wait",
+		"case 2", "run 0:1", "run 0:1", "stop", "run 0:5", "rel 0 0", "rel 0 0", "run 0:1", "run 0:5", "wait",
 	}
 	ncases := r.N(2500, 60000)
 	for c := 0; c < ncases; c++ {
@@ -514,6 +544,33 @@ func c08Generate(r *verifh.Run) []string {
 			lines = append(lines, c08Rel(g, failing))
 			if stopping && g.Chance(10) {
 				lines = append(lines, "stop")
+			}
+		}
+		if g.Chance(30) {
+			// keep queueing after a failure / stop has been observed: everything is skipped, but
+			// registration (reader then writer of the same key, …) must still work and Wait return
+			if g.Chance(50) {
+				lines = append(lines, strings.TrimSpace("run "+c08GenKeys(g, nk)), fmt.Sprintf("rel %d 1", g.Intn(64)))
+			} else {
+				lines = append(lines, "stop")
+			}
+			for i, n := 0, 2+g.Intn(6); i < n; i++ {
+				k := g.Intn(nk)
+				perm := 1
+				if i%2 == 1 || g.Chance(30) {
+					perm = c08Perms[g.Intn(len(c08Perms))]
+				}
+				l := fmt.Sprintf("run %d:%d", k, perm)
+				if g.Chance(25) && nk > 1 {
+					l += fmt.Sprintf(" %d:%d", (k+1)%nk, c08Perms[g.Intn(len(c08Perms))])
+				}
+				lines = append(lines, l)
+				if g.Chance(20) {
+					lines = append(lines, c08Rel(g, false))
+				}
+			}
+			for i := 0; i < 3; i++ {
+				lines = append(lines, c08Rel(g, false))
 			}
 		}
 		lines = append(lines, "wait")
@@ -599,7 +656,16 @@ func TestVerifC08(t *testing.T) {
 			c.gates = append(c.gates, make(chan struct{}))
 			c.fails = append(c.fails, false)
 			c.mu.Unlock()
-			c.e.Run(c08Keys(ks), c.body(id))
+			if p := c08SafeRun(c.e, c08Keys(ks), c.body(id)); p != nil {
+				key := "run-panics"
+				if c.m.err != "" {
+					key = "run-panics-after-error" // tasks queued after a failure/stop must be registered and skipped
+				}
+				r.Violation(key, "Run(%v) of task %d panicked: %v (recorded error before the call: %q)", ks, id, p, c.m.err)
+				c.hung = true // the panic left task locks held: the executor cannot be used further
+				r.Emit(l, "panic")
+				break
+			}
 			c.m.run(ks)
 			c.m.settle(c.workers)
 			r.Emit(l, fmt.Sprintf("t=%d %s", id, c.quiesce()))
@@ -754,7 +820,7 @@ func c08Free(r *verifh.Run, f []string) bool {
 			mu.Unlock()
 			go func() { defer stopWG.Done(); e.Stop() }()
 		}
-		e.Run(c08Keys(keys[id]), func() error {
+		body := func() error {
 			mu.Lock()
 			log = append(log, c08Ev{start: true, id: id})
 			mu.Unlock()
@@ -775,7 +841,23 @@ func c08Free(r *verifh.Run, f []string) bool {
 				return c08Err{id}
 			}
 			return nil
-		})
+		}
+		if p := c08SafeRun(e, c08Keys(keys[id]), body); p != nil {
+			mu.Lock()
+			after := stopped
+			for _, ev := range log {
+				if !ev.start && ev.fail {
+					after = true
+				}
+			}
+			mu.Unlock()
+			key := "run-panics"
+			if after {
+				key = "run-panics-after-error"
+			}
+			r.Violation(key, "free-running case seed=%d workers=%d: Run(%v) of task %d panicked: %v", seed, w, keys[id], id, p)
+			return true
+		}
 		if g.Chance(10) {
 			runtime.Gosched()
 		}
